@@ -140,6 +140,30 @@ def mutations(h, sigma):
                     out.append((f"swapfield{sep}{j}", sep.join(sw)))
             out.append((f"extrasep{sep}", h + sep))
             out.append((f"dblsep{sep}", h.replace(sep, sep + sep, 1)))
+    # parameter lists ('k=v,k=v,...' inside one $-field): every re-ordering of the items, and every numeric item shadowed
+    # by the same key with another value (in front of it: "last one wins" parsers; behind it: "first one wins")
+    if not h.startswith("$scram$"):  # (scram's list is a set of digests, one per algorithm: its order carries nothing)
+        import itertools
+
+        fields = h.split("$")
+        for fi, field in enumerate(fields):
+            items = field.split(",")
+            if len(items) < 2 or not all("=" in it for it in items):
+                continue
+
+            def put(new_items, fi=fi):
+                return "$".join(fields[:fi] + [",".join(new_items)] + fields[fi + 1:])
+
+            if len(items) <= 4:
+                for perm in itertools.permutations(range(len(items))):
+                    if list(perm) != sorted(perm):
+                        out.append((f"permute${fi}:{''.join(map(str, perm))}", put([items[k] for k in perm])))
+            for j, it in enumerate(items):
+                k, _, v = it.partition("=")
+                if v.isdigit() and v.isascii() and len(v) < 10:
+                    other = f"{k}={int(v) + 1}"
+                    out.append((f"shadow_before${fi}:{j}", put(items[:j] + [other] + items[j:])))
+                    out.append((f"shadow_after${fi}:{j}", put(items[: j + 1] + [other] + items[j + 1:])))
     # k=v surgery: the key or the value of every 'k=v' item emptied
     for i, ch in enumerate(h):
         if ch == "=":
